@@ -305,9 +305,10 @@ func twoDiscoveries(burst int, bound int) e1.Scenario {
 func mappingSweep(r *vk.Run) {
 	var n int64
 	for _, cfg := range []struct {
-		port uint16
-		name string
-	}{{0, ""}, {60005, "Alpha"}} {
+		port   uint16
+		name   string
+		ipless uint16 // a broadcast "address" that has a port but no IP: none is configured, the default port applies
+	}{{0, "", 0}, {60005, "Alpha", 0}, {0, "Alpha", 54321}, {0, "", 60005}} {
 		var cur []byte
 		f := &drv.Fake{Script: func(drv.Call) ([][]byte, error) { return [][]byte{cur, cur[:10], cur}, nil }}
 		bcast := types.BroadcastAddr{}
@@ -315,6 +316,9 @@ func mappingSweep(r *vk.Run) {
 		if cfg.port != 0 {
 			bcast = types.BroadcastAddrFrom(netip.MustParseAddr("192.168.1.255"), cfg.port)
 			port = cfg.port
+		}
+		if cfg.ipless != 0 {
+			bcast = types.BroadcastAddrFrom(netip.Addr{}, cfg.ipless)
 		}
 		devices := []uhppote.Device{}
 		if cfg.name != "" {
@@ -331,7 +335,7 @@ func mappingSweep(r *vk.Run) {
 			ip := ex.Fields["IpAddress"].([4]byte)
 			ex.Fields["Address"] = netip.AddrPortFrom(netip.AddrFrom4(ip), port)
 			ex.Fields["Name"] = cfg.name
-			c := map[string]any{"reply": vk.Hex(d), "broadcast_port": cfg.port, "name": cfg.name}
+			c := map[string]any{"reply": vk.Hex(d), "broadcast_port": cfg.port, "name": cfg.name, "broadcast_address_without_ip_port": cfg.ipless}
 			switch {
 			case err != nil:
 				r.Violation("C11/mapping/discovery-failed", fmt.Sprint(err), "mapping", c)
@@ -477,7 +481,7 @@ func main() {
 	if r.Worker == "" && r.Replay == "" {
 		vs.Run(nil, nil, vs.Options{}, func() { mappingSweep(r) })
 	}
-	r.Rule("every sequence of 0..2 datagrams over 14 classes (valid A/B, duplicate, a valid reply arriving over IPv6, an empty datagram, 6 and 63 bytes, 65 and 1100 bytes with a well-formed 64-byte prefix, wrong protocol id, wrong function code, function code 0xff, non-BCD and calendar-invalid date), every 2-datagram sequence also through a client built with debug = true, x 5 arrival times (0.1T, 0.5T, T-e, T, T+e), every 3-datagram class sequence at two fixed time patterns (thorough: also every 3-datagram sequence at every arrival-time combination, simultaneous arrivals and 4 datagrams at two time patterns), broadcast address unset / port 60005, each under all interleavings of the reader goroutine and the sleeping caller within the preemption bound; two overlapping GetDevices calls on one client, the second receiving 3 / 40 replies in the instant the first one's window ends (<= 1 preemption), and 1100 replies on the default schedule; plus a driver-level sweep of one reply through the result mapping (every byte value of address/mask/gateway/MAC/version/serial, all 65536 version, year and month-day byte pairs) x {unnamed + default port, named + port 60005}. distinct = distinct (entries, datagrams) labels")
+	r.Rule("every sequence of 0..2 datagrams over 14 classes (valid A/B, duplicate, a valid reply arriving over IPv6, an empty datagram, 6 and 63 bytes, 65 and 1100 bytes with a well-formed 64-byte prefix, wrong protocol id, wrong function code, function code 0xff, non-BCD and calendar-invalid date), every 2-datagram sequence also through a client built with debug = true, x 5 arrival times (0.1T, 0.5T, T-e, T, T+e), every 3-datagram class sequence at two fixed time patterns (thorough: also every 3-datagram sequence at every arrival-time combination, simultaneous arrivals and 4 datagrams at two time patterns), broadcast address unset / port 60005, each under all interleavings of the reader goroutine and the sleeping caller within the preemption bound; two overlapping GetDevices calls on one client, the second receiving 3 / 40 replies in the instant the first one's window ends (<= 1 preemption), and 1100 replies on the default schedule; plus a driver-level sweep of one reply through the result mapping (every byte value of address/mask/gateway/MAC/version/serial, all 65536 version, year and month-day byte pairs) x {unnamed + default port, named + port 60005, broadcast address with a port but no IP (= none configured)}. distinct = distinct (entries, datagrams) labels")
 	r.Assume("a reply with a calendar-invalid BCD date may be dropped or reported with the zero date (the property lists only non-BCD dates as malformed)")
 	r.Finish()
 }
